@@ -163,6 +163,8 @@ class Pair:
             tag = 'structError'
         except TypeError:
             return line, 'typeError'
+        except Exception as e:  # noqa - anything else out of the real decoder ends the receiver: a verdict, not a harness error
+            tag = 'raised' + type(e).__name__
         fs = self.b.frames[n0:]
         self.delivered.extend(fs)
         if tag == 'ok' and self.b.ok and self.starved is None:
